@@ -49,6 +49,20 @@ def _opts():
     return (o.lsb0, o.bytealigned, o.mxfp_overflow, o.no_color)
 
 
+def origin(e) -> str:
+    """Qualified name of the innermost package function on the traceback of e (the raise site)."""
+    import os
+    tb = e.__traceback__
+    site = 'python'
+    root = os.path.realpath(os.path.dirname(bitstring.__file__)) + os.sep
+    while tb is not None:
+        co = tb.tb_frame.f_code
+        if os.path.realpath(co.co_filename).startswith(root):
+            site = co.co_qualname
+        tb = tb.tb_next
+    return site
+
+
 def _ev(sid: str):
     ctx = _state['ctx']
     if ctx is not None:
@@ -97,7 +111,7 @@ def _post(cls, name, self, pre, preargs, opts_before, raised):
         if _opts() != opts_before:
             _trip('S4', f'{tname}.{name}', f'{opts_before} -> {_opts()}')
         if isinstance(raised, INTERNAL) and not isinstance(raised, bitstring.Error):
-            _trip('S5', f'{tname}.{name}|{type(raised).__name__}', str(raised)[:120])
+            _trip('S5', f'{type(raised).__name__}@{origin(raised)}', f'{tname}.{name}: {str(raised)[:120]}')
     for x, s in preargs:
         _ev('S6')
         if _snap(x) != s:
